@@ -181,9 +181,20 @@ func c13Body(c *mc.Ctx, media, scheme string, maxN int) {
 		c.Cover("value:" + values[(i*3+vrot)%len(values)].name)
 	}
 	spec := newEnvSpec(media, cont, "p256-e")
-	extra := c.Choose("crit-extra", 4)
+	extra := c.Choose("crit-extra", 6)
 	mustReject, recorded := false, false
 	switch extra {
+	case 4:
+		// a conditional specification label whose header is absent
+		spec.crit = append(spec.crit, envenc.HdrExpiry)
+		mustReject = true
+	case 5:
+		if scheme == envenc.SchemeX509 {
+			spec.crit = append(spec.crit, envenc.HdrAuthTime)
+		} else {
+			spec.crit = append(spec.crit, envenc.HdrSigningTime)
+		}
+		mustReject = true
 	case 1:
 		spec.crit = append(spec.crit, "io.example.phantom")
 		mustReject = true
